@@ -106,4 +106,13 @@ NoOverrun == ((tail - khead + W) % W) <= N
 \* Conservation at rest: every buffer is either owned by the application or on offer exactly once.
 Conserved == (\A t \in Threads : pc[t] = "idle") =>
                  Cardinality({b \in Bufs : owner[b] = "ring"}) = (tail - khead + W) % W
+\* The ghost counters of PoolInd.tla (the Apalache module with W = 2^16) through the state of this
+\* module: every publish puts one buffer on offer, every selection takes one away, so
+\* buffers ever published = selections + buffers on offer now.
+OnOffer == Cardinality({b \in Bufs : owner[b] = "ring"})
+GhostSel == Start + N + takes
+GhostRel == GhostSel + OnOffer
+GhostAgrees == khead = GhostSel % W /\ tail = GhostRel % W
+GhostTakeSafe == ((tail - khead + W) % W) = OnOffer /\ (khead # tail => OnOffer >= 1)
+GhostConserved == Cardinality({b \in Bufs : owner[b] = "app"}) + Cardinality({t \in Threads : pc[t] \in {"lock", "load", "fill", "publish"}}) + OnOffer = N
 =============================================================================
